@@ -48,6 +48,9 @@ def cases(tier, seed):
             kw.update(p_mulch=1.0, methods=(1, 2, 3, 5))
         elif cls == 3:
             kw.update(off_season=True, hostile=True)
+        elif cls == 4 and i % 10 == 4:   # net irrigation on layered soils (the requirement is computed per layer)
+            kw.update(methods=(4,), soil_names=["ac_TunisLocal", "Paddy"], p_custom=0.6, dry=True,
+                      crops=["Maize", "Cotton", "Sorghum", "Sunflower", "Wheat", "Soybean"], regimes=["arid", "warm", "hot"])
         sp = gen.config(rng, **kw)
         if cls == 0:
             k = sp["irr"]["kw"]
